@@ -14,13 +14,13 @@ RULES = {
  "C05": [r"src/biguint/monty\.rs::", r"src/biguint/power\.rs::(modpow|plain_modpow)\b", r"src/bigint/power\.rs::modpow\b", r"src/big(u)?int\.rs::(modpow|modinv)\b"],
  "C06": [r"src/biguint/convert\.rs::(fls|ilog2|from_str|from_radix\w*|from_str_radix|to_radix\w*|to_str_radix_reversed|get_radix_base|get_half_radix_base|generate_radix_bases|\w*bitwise_digits_le)\b",
          r"src/bigint/convert\.rs::(from_str|from_str_radix)\b", r"src/big(u)?int\.rs::(fmt|to_str_radix|to_radix_\w+|from_radix_\w+|parse_bytes)\b"],
- "C07": [r"src/biguint/(bits|shift)\.rs::", r"src/bigint/(bits|shift)\.rs::", r"src/big(u)?int\.rs::(bits|trailing_zeros|trailing_ones|count_ones|bit|set_bit|not)\b"],
+ "C07": [r"src/biguint/(bits|shift)\.rs::", r"src/bigint/(bits|shift)\.rs::", r"src/big(u)?int\.rs::(bits|trailing_zeros|trailing_ones|count_ones|bit|set_bit|not)\b", r"src/big(u)?int/shift\.rs::\$shx"],
  "C08": [r"src/big(u)?int/convert\.rs::(to_[iuf]\w+|from_[iuf]\w+|high_bits_to_u64|from|try_from|into_original|__description)\b", r"src/lib\.rs::",
          # only the macro-generated primitive -> big impls of ToBigInt/ToBigUint (big -> big is C19's)
          r"src/bigint/convert\.rs::to_bigint#2$", r"src/biguint/convert\.rs::to_biguint#1$"],
  "C09": [r"src/biguint/iter\.rs::", r"src/biguint/convert\.rs::\w*bitwise_digits_le\b", r"src/bigint/convert\.rs::(from_signed_bytes\w*|to_signed_bytes\w*|twos_complement\w*|from_bytes\w*|to_bytes\w*)\b",
          r"src/big(u)?int\.rs::(new|from_slice|assign_from_slice|from_bytes_\w+|to_bytes_\w+|from_signed_bytes_\w+|to_signed_bytes_\w+|to_u32_digits|to_u64_digits|iter_u32_digits|iter_u64_digits|u32_chunk_to_u64|ensure_big_digit|biguint_from_vec)\b"],
- "C10": [r"src/big(u)?int/\w+\.rs::(%s)\b" % OPS, r"src/big(u)?int\.rs::(%s)\b" % OPS],
+ "C10": [r"src/big(u)?int/\w+\.rs::(%s)\b" % OPS, r"src/big(u)?int\.rs::(%s)\b" % OPS, r"src/macros\.rs::", r"::\$\w+"],
  "C11": [r"src/big(u)?int\.rs::(fixpoint|nth_root|sqrt|cbrt)\b"],
  "C12": [r"src/big(u)?int/power\.rs::(pow|powsign)\b", r"src/big(u)?int\.rs::pow\b"],
  "C13": [r"src/big(u)?int\.rs::(gcd|lcm|gcd_lcm|extended_gcd_lcm|divides|is_multiple_of|is_even|is_odd|next_multiple_of|prev_multiple_of|dec|inc|twos)\b"],
